@@ -532,6 +532,8 @@ class Program:
     def shadowed(f, name: str) -> bool:
         """`name`, used in function f, is a parameter of f or of a function enclosing it: a call through it is a call of
         whatever the caller passed (a callback), never of a package function that happens to have the same name"""
+        if name in ("cls", "self"):
+            return False  # `cls(...)` constructs the class
         g = f
         while g is not None:
             try:
